@@ -1,6 +1,7 @@
 """C11 — memory safety, UB freedom, termination and finiteness."""
 import os, sys, shutil, subprocess
 from vcommon import *
+import tab_k
 import gen
 
 PID = "C11"
@@ -47,6 +48,7 @@ def run(tier, replay=None):
                        "every (LA,LB,lambda_max,derivative order,A on/off centre,B on/off centre) class within MAX_L (quick: lambda sampled) with exponents 1e-3..1e6, "
                        "distances 2e-6..60 and powers 0..2, plus one moderate-parameter case per class with every power in every channel; every returned number must be finite; valgrind memcheck (uninitialised values) on a reduced sweep")
     ok = coq_properties(res, PID)
+    tab_ok, tab_fail = tab_k.obligations(res, PID)
     if not ok:
         proof_broken(res, PID, "Properties_C11.v no longer checks")
     root = build_lib("asan")
@@ -109,4 +111,5 @@ def run(tier, replay=None):
         shutil.rmtree(tmp, ignore_errors=True)
     res.assumptions += ["ASan/UBSan/valgrind observe the executed paths only; the index theorems cover all L/N for the modelled layers",
                         "the case being processed when a shard aborts is identified by the last 'begin' line the driver flushed"]
+    tab_k.report(res, PID, tab_ok, tab_fail)
     return res.finish()
